@@ -83,6 +83,8 @@ def gen_c14(seed, n, tier):
                 for u in m["updates"][kk:]:
                     u["market_time"] = iso
                 m["updates"][kk]["market_time_ms"] = new_ms
+        if i < 6 and i % 2 == 1 and not lk:      # the scenarios re-run in fresh processes include the start-time filter
+            lk["seconds_to_start"] = 50.0
         scn["cfg"]["listener_kwargs"] = lk
         if scn["cfg"]["event_processing"] and rnd.random() < 0.3:
             scn["cfg"]["event_groups"] = {"30000001": "G", "30000002": "G"}
@@ -90,10 +92,12 @@ def gen_c14(seed, n, tier):
     return out
 
 
-def run_sub(scn_path, hashseed, offset):
+def run_sub(scn_path, hashseed, offset, tz=None):
     env = dict(os.environ)
     env["PYTHONHASHSEED"] = str(hashseed)
     env["VERIF_CLOCK_OFFSET_S"] = str(offset)
+    if tz:
+        env["TZ"] = tz          # the process's local time zone must not matter either
     p = subprocess.run([sys.executable, "-m", "harness.run_one", scn_path], cwd=ROOT, env=env, stdout=subprocess.PIPE, stderr=subprocess.PIPE, text=True, timeout=300)
     last = [l for l in p.stdout.splitlines() if l.startswith("{")]
     if not last:
@@ -127,8 +131,8 @@ def check_c14(tier, seed):
                 with open(sp, "w") as f:
                     json.dump(scn, f)
                 runs = [{"ledger": ledger_of(tr), "restored": tr["dt_restored"]}]
-                runs.append(run_sub(sp, 1, 0))
-                runs.append(run_sub(sp, 4242, 86400 * 400 + 3333))
+                runs.append(run_sub(sp, 1, 0, tz="EST5"))
+                runs.append(run_sub(sp, 4242, 86400 * 400 + 3333, tz="JST-9"))
                 # aborted run: raise_errors with an injected exception in the first callback
                 s2 = copy.deepcopy(scn)
                 s2["cfg"]["raise_errors"] = True
